@@ -262,6 +262,8 @@ def c20(ctx, api):
     st, summ = api['run_tlc_to_harness'](ctx, 'docdepth', 'GenCost', cfg(constants={'Emit': 'TRUE', 'Prop': '"C20"'}), timeout=1500,
                                          harness_args=['-only', 'docscale', '-timeout', '120s', '-workers', '8'])
     acc.add('equality and containment on documents nested 64 .. 8192 and 100000 levels deep (same outcome at every depth: DepthLemma)', st, summ)
+    st, summ = api['run_tlc_to_harness'](ctx, 'probe', 'GenProbe', cfg(constants={'Emit': 'TRUE', 'Prop': '"C20"'}), timeout=1500, harness_args=['-timeout', '30s'])
+    acc.add('GenProbe: single inputs with a pinned outcome from the audit round (recorded findings, re-observed on every run)', st, summ)
     return acc.result(RULE_PINNED, extra={'model_checks': ['Reflexive', 'Symmetric', 'Transitive', 'TypeStrict',
                                                            'NeIsNegation', 'ContainsIsExistsEq', 'FiveFalseLike',
                                                            'AndOrReturnOperand']})
@@ -312,6 +314,8 @@ def c02(ctx, api):
     st, summ = api['run_tlc_to_harness'](ctx, 'intarg', 'GenIntArg', cfg(constants={'Emit': 'TRUE', 'Prop': '"C02"'}), timeout=1500)
     acc.add('GenIntArg: 32 numeral spellings (3e0, 30e-1, 3.0000000000000001, 1e-400 ...) in 8 integer-argument positions; '
             'integrality and value decided by Decimal.tla', st, summ)
+    st, summ = api['run_tlc_to_harness'](ctx, 'probe', 'GenProbe', cfg(constants={'Emit': 'TRUE', 'Prop': '"C02"'}), timeout=1500, harness_args=['-timeout', '30s'])
+    acc.add('GenProbe: single inputs with a pinned outcome from the audit round (recorded findings, re-observed on every run)', st, summ)
     return acc.result(RULE_PINNED, extra={'model_checks': ['UnknownFunction', 'ArityIffOutOfRange', 'NoArityWhenInRange',
                                                            'TypeErrorIffOutsideSignature', 'OnlyDynamicCategories']})
 
@@ -375,6 +379,10 @@ def c13(ctx, api):
                                      maxlen=200 if thorough else 100)
     acc.add_traces('trace validation: sort_by / max_by / min_by / sort / group_by on random arrays of 13..200 elements with many ties, '
                    'recorded from the real Search and checked by TLC against the specification sort (quick: up to 100 elements)', tv)
+    st, summ = api['run_tlc_to_harness'](ctx, 'num', 'GenNum', cfg(constants={'Emit': 'TRUE', 'Prop': '"C13"'}), timeout=1500)
+    acc.add('GenNum: min / max return an element (float64, native and exponent-spelled json.Number elements); numerals and spellings', st, summ)
+    st, summ = api['run_tlc_to_harness'](ctx, 'probe', 'GenProbe', cfg(constants={'Emit': 'TRUE', 'Prop': '"C13"'}), timeout=1500, harness_args=['-timeout', '30s'])
+    acc.add('GenProbe: single inputs with a pinned outcome from the audit round (recorded findings, re-observed on every run)', st, summ)
     return acc.result(RULE_PINNED, extra={'model_checks': ['Permutation', 'Ordered', 'TiesKeepInputOrder']})
 
 
@@ -406,6 +414,8 @@ def c16(ctx, api):
     acc.add('GenNum: 17 numerals of every length and exponent (inside and outside the decimal128 range) kept at full precision through 15 non-computing '
             'forms; 41 spellings of 6 values (E / e, signed and zero-padded exponents, trailing zeros, shifted point) under 27 numeric functions and operators, '
             'each paired with the canonical spelling', st, summ)
+    st, summ = api['run_tlc_to_harness'](ctx, 'probe', 'GenProbe', cfg(constants={'Emit': 'TRUE', 'Prop': '"C16"'}), timeout=1500, harness_args=['-timeout', '30s'])
+    acc.add('GenProbe: single inputs with a pinned outcome from the audit round (recorded findings, re-observed on every run)', st, summ)
     return acc.result(RULE_PINNED, extra={'model_checks': ['LiteralDecodesToItself', 'DecEncRaw', 'DecEncQuoted', 'DecEncJSON', 'OneToken', 'CountLemma']})
 
 
@@ -476,6 +486,8 @@ def c05(ctx, api):
     acc.add('GenNum: 17 numerals of every length and exponent (inside and outside the decimal128 range) kept at full precision through 15 non-computing '
             'forms; 41 spellings of 6 values (E / e, signed and zero-padded exponents, trailing zeros, shifted point) under 27 numeric functions and operators, '
             'each paired with the canonical spelling', st, summ)
+    st, summ = api['run_tlc_to_harness'](ctx, 'probe', 'GenProbe', cfg(constants={'Emit': 'TRUE', 'Prop': '"C05"'}), timeout=1500, harness_args=['-timeout', '30s'])
+    acc.add('GenProbe: single inputs with a pinned outcome from the audit round (recorded findings, re-observed on every run)', st, summ)
     return acc.result(RULE_PINNED + '; results needing more than 34 digits admit exactly two values (truncation and truncation + 1 ulp) and count as unpinned',
                       extra={'model_checks': ['SmallLaws', 'BigLaws (thorough)', 'Commutative', 'CmpAntisymmetric']})
 
